@@ -355,6 +355,8 @@ T["T14"].modules["tq.zclash"] = {"a": clash_source(T["T14"])}
 
 # ---------------------------------------------------------------- T9: dds.load placements
 _T9 = '''
+import pathlib
+
 V = 0
 
 
@@ -423,6 +425,20 @@ def root_f():
     dds.keep("/t9/k1", g)
     dds.keep("/t9/k2", g)
     return dds.keep("/t9/rk2", reader_k2)
+
+
+PK = pathlib.Path("/t9/k3")
+
+
+def reader_pp():
+    tick.hit("reader_pp")
+    return ("rpp", dds.load(PK))
+
+
+def root_g():
+    # the path is a pathlib.Path object (a documented path type) for the keep and for the load
+    dds.keep(PK, g)
+    return dds.keep("/t9/rpp", reader_pp)
 
 
 def root_e():
